@@ -4434,9 +4434,9 @@ class FlowIR(object):
         if num_stages:
             # VV: a stage may be identified as N, "N" or "stageN" (see stage_identifier_to_stage_index), use the index
             status_report = flowir[self.FieldStatusReport]
-            for key in list(status_report):
-                if isinstance(key, int) is False:
-                    status_report[self.stage_identifier_to_stage_index(key)] = status_report.pop(key)
+            #     in sorted order: when a stage is listed under two identifiers the same one wins in every process
+            for key in sorted((key for key in status_report if isinstance(key, int) is False), key=repr):
+                status_report[self.stage_identifier_to_stage_index(key)] = status_report.pop(key)
 
             # VV: stages may share one dictionary (YAML anchors), give each stage its own before weights are written
             for key in list(status_report):
